@@ -33,10 +33,11 @@ def execute(job):
         k = job['kind']
         if k == 'mutator':
             r = harness.run_mutator_job(prog, job)
-        elif k in ('c17_mut', 'c17_iter', 'c17_id', 'c17_pretty'):
+        elif k in ('c17_mut', 'c17_iter', 'c17_id', 'c17_pretty', 'c17_display'):
             import c17
             if k == 'c17_id': r = c17.run_identity_job(MIRTEXT, job)
             elif k == 'c17_pretty': r = c17.run_diff_pretty(PROGS, job)
+            elif k == 'c17_display': r = c17.run_diff_display(PROGS, job)
             else: r = (c17.run_diff_mutator if k == 'c17_mut' else c17.run_diff_iter)(PROGS, job)
         elif k in ('iter', 'pair', 'deiter'):
             import iters
